@@ -1,15 +1,16 @@
 #!/bin/bash
-# usage: tryseed.sh <patch.diff> <ID> [tier]  — apply a seeded change to /repo, run the check, always undo.
-P="$1"; ID="$2"; TIER="${3:-quick}"
-cd /repo || exit 2
-if [ -n "$(git status --porcelain --untracked-files=no)" ]; then echo "/repo dirty, refusing" >&2; exit 2; fi
-git apply "$P" || { echo "patch does not apply" >&2; exit 2; }
-/verif/check.sh "$ID" "$TIER" > /tmp/tryseed.$$.log 2>&1; rc=$?
-git -C /repo checkout -- .
-grep -c '^VIOLATION' /tmp/tryseed.$$.log | sed "s/^/violations: /"
-grep '^VIOLATION\|fingerprint\|^C[0-9][0-9] ' /tmp/tryseed.$$.log | head -12
-rm -f /tmp/tryseed.$$.log
-rm -rf /verif/replay/$ID
-# restore evidence of the unchanged tree
-git -C /verif checkout -- evidence/$ID.json 2>/dev/null
+# usage: tryseed.sh <patch.diff> <ID> [tier]
+# Applies a seeded change in a SCRATCH worktree of /repo (never /repo itself), runs the check
+# against that worktree (VERIF_REPO) writing evidence/replays to a scratch dir (VERIF_OUT),
+# prints what was reported, removes everything.
+P="$(realpath "$1")"; ID="$2"; TIER="${3:-quick}"
+WT=/tmp/wt-try-$$; OUT=/tmp/out-try-$$
+git -C /repo worktree add -q "$WT" HEAD || exit 2
+mkdir -p "$OUT/evidence"; cp /verif/known_findings.txt "$OUT/"
+cleanup() { git -C /repo worktree remove --force "$WT" 2>/dev/null; rm -rf "$OUT" "/verif/.work/alt/$(echo "$WT" | tr -c 'A-Za-z0-9' _)"; }
+trap cleanup EXIT
+git -C "$WT" apply "$P" || { echo "patch does not apply"; exit 2; }
+VERIF_REPO="$WT" VERIF_OUT="$OUT" /verif/check.sh "$ID" "$TIER" > "$OUT/log" 2>&1; rc=$?
+grep -c '^VIOLATION' "$OUT/log" | sed "s/^/violations: /"
+grep '^VIOLATION\|fingerprint\|^C[0-9][0-9] \|HARNESS\|build failed' "$OUT/log" | grep -v "^KNOWN" | head -${TRYSEED_LINES:-12}
 echo "exit=$rc"
